@@ -878,7 +878,9 @@ class SimpleShape(DefinedShape):
         for point in jordan.points(0):
             if not self.contains_point(point, boundary):
                 return False
-        inters = jordan & self.jordans[0]
+        inters = jordan.intersection(
+            self.jordans[0], equal_beziers=False, end_points=True
+        )
         uvals = {}
         for a, _, u, _ in inters:
             if a not in uvals:
